@@ -80,6 +80,12 @@ def inproc_ep_queries(tier):
         qs.append(Query("inproc-ep-failpair-%s" % skel.tag(w), "c14/inproc_ep.c", tus=["core/list.c", "core/refcnt.c", "core/strs.c"], env=IENV, defs={"SKEL": w, "FAILPAIR": 1},
                         cdefs=["-DENV_MSG_CAP=8"], unwind=12, unwind_rules=KIT_RULES, timeout=300, group="~c14/inproc_ep.c#failpair",
                         params={"unit": "sp/transport/inproc/inproc.c endpoints", "skeleton": w, "fault": "pair allocation fails"}))
+    for w in ("B K(0,0) A(1)", "B A(0) K(0,1)"):
+        for which in (1, 2):
+            qs.append(Query("inproc-ep-failpipe%d-%s" % (which, skel.tag(w)), "c14/inproc_ep.c", tus=["core/list.c", "core/refcnt.c", "core/strs.c"], env=IENV,
+                            defs={"SKEL": w, "FAILPIPE": which}, cdefs=["-DENV_MSG_CAP=8"], unwind=12, unwind_rules=KIT_RULES, timeout=300, group="~c14/inproc_ep.c#failpipe",
+                            params={"unit": "sp/transport/inproc/inproc.c endpoints", "skeleton": w,
+                                    "fault": "the %s's pipe cannot be completed by the core (pipe_create fails after the transport's p_init); the reaper runs on both halves" % ("dialer" if which == 1 else "listener")}))
     return qs
 
 MANIFEST = {
